@@ -18,6 +18,31 @@ from ..common import AnalysisError, SRC
 from .. import pyfront
 
 REL = SRC + "/_base.py"
+
+
+def _guard_roots(fn, expr, _depth=0):
+    """what a guard depends on, with locals that have a single call-free
+    definition replaced by what they were computed from: `not is_first` with
+    `is_first = index == 0` depends on index, like `index > 0`"""
+    roots = set()
+
+    def visit(e, depth):
+        if isinstance(e, ast.Attribute) and isinstance(e.value, ast.Name):
+            roots.add("%s.%s" % (e.value.id, e.attr))
+            return
+        if isinstance(e, ast.Name):
+            defs = [a.value for a in ast.walk(fn) if isinstance(a, ast.Assign) and len(a.targets) == 1
+                    and isinstance(a.targets[0], ast.Name) and a.targets[0].id == e.id]
+            if len(defs) == 1 and depth < 3 and not any(isinstance(x, ast.Call) for x in ast.walk(defs[0])):
+                visit(defs[0], depth + 1)
+            else:
+                roots.add(e.id)
+            return
+        for c in ast.iter_child_nodes(e):
+            visit(c, depth)
+    visit(expr, 0)
+    return ", ".join(sorted(roots))
+
 CMP_MACROS = ("TEST_KEY_SET_OR", "BUCKET_SEARCH", "BTREE_SEARCH")
 DESCENTS = ("_BTree_set", "_bucket_set")
 
@@ -103,13 +128,12 @@ class CmpAnalysis(Analysis):
                 if sget(st, "cm") is not None:
                     guards = self._guards(node, st)
                     self.report("CMP-AFTER-COMMIT", node, st,
-                                "key comparison after the child was modified, guarded by [%s]"
-                                % ", ".join(guards),
+                                "key comparison after the child was modified, under [%s]" % "; ".join(guards),
                                 "a key comparison that can raise is executed "
                                 "after the child node has been modified (at "
-                                "%s): its error exit returns with the leaf "
+                                "%s; the comparison is guarded by [%s]): its error exit returns with the leaf "
                                 "changed and the remaining relinking / "
-                                "separator work skipped (partial change)" % sget(st, "cm"))
+                                "separator work skipped (partial change)" % (sget(st, "cm"), ", ".join(guards)))
                 return sset(st, "ce", node.where)
             return st
         e = strip_parens(node.e)
@@ -147,7 +171,10 @@ class CmpAnalysis(Analysis):
             if par.k == "IfStmt" and par.kids and par.kids[0] is not cur and \
                     not (par.mi == "TEST_KEY_SET_OR" or par.mo in CMP_MACROS):
                 branch = "" if (len(par.kids) > 1 and par.kids[1] is cur) else "!"
-                out.append(branch + text(par.kids[0])[:50])
+                names = sorted(set(path(x) for x in par.kids[0].walk()
+                                   if x.k in ("DeclRefExpr", "MemberExpr") and path(x) and
+                                   (x.rk in ("VarDecl", "ParmVarDecl") or x.k == "MemberExpr")))
+                out.append(branch + "test of " + ", ".join(names) if names else branch + text(par.kids[0])[:50])
             cur = par
         return list(reversed(out))
 
@@ -237,6 +264,7 @@ def py_rules(res):
                 if isinstance(c, ast.Call) and isinstance(c.func, ast.Name) and c.func.id == "compare":
                     n += 1
                     guards = []
+                    guard_nodes = []
                     p = c
                     while getattr(p, "_parent", None) is not None and p is not fn:
                         par = p._parent
@@ -245,18 +273,23 @@ def py_rules(res):
                                 if v is p or any(x is p for x in ast.walk(v)):
                                     break
                                 guards.append(pyfront.unparse(v))
+                                guard_nodes.append(v)
                         if isinstance(par, ast.If) and any(x is p for b in par.body for x in ast.walk(b)):
                             guards.append(pyfront.unparse(par.test)[:40])
+                            guard_nodes.append(par.test)
                         p = par
                     res.findings.add(dict(
                         rule="CMP-AFTER-COMMIT", function="_Tree.%s" % mname, file=REL, line=c.lineno,
-                        construct="%s after child.%s, guarded by [%s]" % (
-                            pyfront.unparse(c), mname, ", ".join(guards)),
-                        detail="a key comparison that can raise is executed "
+                        construct="%s after child.%s, under tests of [%s]" % (
+                            "comparison of the key with a separator of the node"
+                            if any(isinstance(x, ast.Attribute) and x.attr == "key" for a in c.args
+                                   for x in ast.walk(a)) else "key comparison", mname,
+                            "; ".join(_guard_roots(fn, g) for g in guard_nodes)),
+                        detail="a key comparison that can raise (%s, guarded by [%s]) is executed "
                                "after the child node has been modified: its "
                                "exception leaves the leaf changed and the "
                                "remaining unlink / separator work undone "
-                               "(partial change)", path=[]))
+                               "(partial change)" % (pyfront.unparse(c), ", ".join(guards)), path=[]))
     res.count("PY-CMP-AFTER-COMMIT", max(1, n))
 
 
